@@ -94,6 +94,37 @@ rewrite (gval_sum n (fun l => (run Gf n).2 i l * Gf l j)).
 apply: xsumN_ext => l /ltP ll.
 by rewrite gval_mul -rV // -rG.
 Qed.
+
+(* over a field a left inverse of a square matrix is a right inverse *)
+Lemma right_inverse (Vf Gf : gmx) :
+  (forall i j, (i < n)%nat -> (j < n)%nat -> \sum_(l < n) Vf i l * Gf l j = (i == j)%:R) ->
+  forall i j, (i < n)%nat -> (j < n)%nat -> \sum_(l < n) Gf i l * Vf l j = (i == j)%:R.
+Proof.
+move=> VG i j li lj.
+pose VM : 'M[gf]_n := \matrix_(a, b) Vf a b.
+pose GM : 'M[gf]_n := \matrix_(a, b) Gf a b.
+have e : VM *m GM = 1%:M.
+  apply/matrixP => a b; rewrite !mxE -val_eqE /= -(VG a b) //.
+  by apply: eq_bigr => l _; rewrite !mxE.
+have /matrixP /(_ (Ordinal li) (Ordinal lj)) := mulmx1C e.
+rewrite !mxE -val_eqE /= => <-.
+by apply: eq_bigr => l _; rewrite !mxE.
+Qed.
+
+Lemma sound_right_of_pivots G (Gf : gmx) V :
+  repr G Gf -> repr V (run Gf n).2 ->
+  (forall t', (t' < n)%nat -> (run Gf t').1 t' t' != 0) ->
+  forall i j, (i < n)%nat -> (j < n)%nat ->
+    xsumN n (fun l => gmul (G i l) (V l j)) = RecModel.idN i j.
+Proof.
+move=> rG rV pv i j li lj.
+have VG a b : (a < n)%nat -> (b < n)%nat -> \sum_(l < n) (run Gf n).2 a l * Gf l b = (a == b)%:R.
+  by move=> la lb; rewrite -(VG_eq_M Gf (leqnn n) b la) (cols_run pv a lb).
+rewrite -gval_delta -(right_inverse VG li lj).
+rewrite (gval_sum n (fun l => Gf i l * (run Gf n).2 l j)).
+apply: xsumN_ext => l /ltP ll.
+by rewrite gval_mul -rV // -rG.
+Qed.
 End Track.
 
 Definition lift (G : RecModel.mxN) : gmx := fun i j => gf_of (G i j).
@@ -129,19 +160,21 @@ Hypothesis lip : length ip = nr.
 Hypothesis bid : forall d, List.In d id -> (d < 251)%coq_nat.
 Hypothesis bip : forall p, List.In p ip -> (p < GenProofs.rows_of m)%coq_nat.
 
-Let G : RecModel.mxN := fun j k => RecModel.coefA m (List.nth j ip 0%nat) (List.nth k id 0%nat).
+Variable G : RecModel.mxN.
+Hypothesis G_eq : forall j k, (j < nr)%coq_nat -> (k < nr)%coq_nat ->
+  G j k = RecModel.coefA m (List.nth j ip 0%nat) (List.nth k id 0%nat).
 
 Lemma G_mat j k : (j < nr)%coq_nat -> (k < nr)%coq_nat ->
   G j k = matN m (List.nth j ip 0%nat) (List.nth k id 0%nat).
 Proof.
-move=> lj lk; apply: coefA_matN.
+move=> lj lk; rewrite G_eq //; apply: coefA_matN.
 - by apply: bip; apply: List.nth_In; rewrite lip.
 - by apply: bid; apply: List.nth_In; rewrite lid.
 Qed.
 
 Lemma G_bytes j k : (j < nr)%coq_nat -> (k < nr)%coq_nat -> (G j k < 256)%N.
 Proof.
-move=> lj lk; apply: coefA_range.
+move=> lj lk; rewrite G_eq //; apply: coefA_range.
 - by apply: bip; apply: List.nth_In; rewrite lip.
 - by apply: bid; apply: List.nth_In; rewrite lid.
 Qed.
@@ -178,9 +211,11 @@ Qed.
 
 Theorem invertN_ok_sect :
   exists V, [/\ RecModel.invertN G nr = Some V,
-    (forall i j, (i < nr)%coq_nat -> (j < nr)%coq_nat -> (V i j < 256)%N)
+    (forall i j, (i < nr)%coq_nat -> (j < nr)%coq_nat -> (V i j < 256)%N),
+    (forall i j, (i < nr)%coq_nat -> (j < nr)%coq_nat ->
+       xsumN nr (fun l => gmul (V i l) (G l j)) = RecModel.idN i j)
   & (forall i j, (i < nr)%coq_nat -> (j < nr)%coq_nat ->
-       xsumN nr (fun l => gmul (V i l) (G l j)) = RecModel.idN i j)].
+       xsumN nr (fun l => gmul (G i l) (V l j)) = RecModel.idN i j)].
 Proof.
 have rG := repr_lift G_bytes.
 have pv := no_zero_pivot G_lead.
@@ -190,6 +225,7 @@ case: (RecModel.runN _ _) => [[M V]|]; last first.
 case=> /= rM rV _; exists V; split => //.
 - by move=> i j /ltP li /ltP lj; rewrite rV //; exact: gvalP.
 - by move=> i j /ltP li /ltP lj; apply: (sound_of_pivots rG rV) => // t' lt; apply: pv.
+- by move=> i j /ltP li /ltP lj; apply: (sound_right_of_pivots rG rV) => // t' lt; apply: pv.
 Qed.
 End Ok.
 
@@ -205,9 +241,31 @@ Theorem invertN_ok m (id ip : list nat) nr :
        xsumN nr (fun l => gmul (V i l) (G l j)) = RecModel.idN i j).
 Proof.
 move=> sid sip lid lip bid bip G.
-have [V [e bV sV]] := invertN_ok_sect sid sip lid lip bid bip.
+have [V [e bV sV _]] := @invertN_ok_sect m id ip nr sid sip lid lip bid bip G (fun _ _ _ _ => erefl).
+by exists V.
+Qed.
+
+(* the same for any matrix that coincides with the generator sub-matrix on the nr x nr square,
+   with the right-inverse property too *)
+Theorem invertN_ok_ext m (id ip : list nat) nr (G : RecModel.mxN) :
+  RecModel.sorted_lt id = true -> RecModel.sorted_lt ip = true ->
+  length id = nr -> length ip = nr ->
+  (forall d, List.In d id -> (d < 251)%coq_nat) ->
+  (forall p, List.In p ip -> (p < GenProofs.rows_of m)%coq_nat) ->
+  (forall j k, (j < nr)%coq_nat -> (k < nr)%coq_nat ->
+     G j k = RecModel.coefA m (List.nth j ip 0%nat) (List.nth k id 0%nat)) ->
+  exists V, RecModel.invertN G nr = Some V /\
+    (forall i j, (i < nr)%coq_nat -> (j < nr)%coq_nat -> (V i j < 256)%N) /\
+    (forall i j, (i < nr)%coq_nat -> (j < nr)%coq_nat ->
+       xsumN nr (fun l => gmul (V i l) (G l j)) = RecModel.idN i j) /\
+    (forall i j, (i < nr)%coq_nat -> (j < nr)%coq_nat ->
+       xsumN nr (fun l => gmul (G i l) (V l j)) = RecModel.idN i j).
+Proof.
+move=> sid sip lid lip bid bip Geq.
+have [V [e bV sV sR]] := invertN_ok_sect sid sip lid lip bid bip Geq.
 by exists V.
 Qed.
 
 Print Assumptions invertN_sound_general.
 Print Assumptions invertN_ok.
+Print Assumptions invertN_ok_ext.
